@@ -15,7 +15,7 @@ LEVEL = "fault_enumeration"
 MANIFEST = dict(
     engine="E2-dataservers", engine_path="vlib/dataservers.py",
     kind="per host a real shm server process and the real DataServer.recv_loop; the harness plays controller and executor (owns the message listeners, pre-loads and reads back the shm stores, sends transmit / fetch / purge commands); payload frames and confirmations are dropped / duplicated / delayed by wrappers around send_data and the Ack callback",
-    technique="fault-injection on the real data servers with an end-state oracle: for generated command sets on 2-3 hosts under seeded loss / duplication / delay of payload and confirmation frames, at quiescence every (dataset, target) holds exactly the source's bytes and decoding function, the number of arrival announcements on the target's message socket is exactly one (zero if the target already held the dataset), every fetch delivered exactly one equal payload, a payload after the target's purge does not resurrect the dataset, no transmit failure was reported and no data server exited",
+    technique="fault-injection on the real data servers with an end-state oracle: for generated command sets on 2-3 hosts under seeded loss / duplication / delay of payload and confirmation frames, at logical quiescence (every expected notice / payload seen and every purge returned from the shm server in the data server's own event trace; never a wall-clock verdict: the harness waits while the servers' logs still grow, calls a transfer lost only after 15 confirmation graces of silence, and excludes a scenario whose servers are still busy at the cap) every (dataset, target) holds exactly the source's bytes and decoding function, the number of arrival announcements the target's data server makes (its calls of callback(maddress, DatasetPublished), cross-checked with what arrives) is exactly one (zero if the target already held the dataset), every fetch delivered exactly one equal payload, a payload after the target's purge does not resurrect the dataset, no transmit failure was reported and no data server exited",
     text="Held = all end-state clauses true in every scenario explored (faults counted in the evidence: payloads/confirmations dropped, duplicated, delayed).",
     note="the data server clock runs 40x fast and its listener poll is clamped (a compressed confirmation grace can only cause extra re-transmissions, never a spurious failure); the controller-side precondition of C04 is respected by the workload (no transmit for a dataset already purged at its source; a source is purged only after the transfer was accepted and only in plans without payload loss).",
 )
